@@ -83,7 +83,7 @@ func c01RoundTrip(maxData int) {
 	vAssert("reencode_len", m == len(enc))
 }
 
-func VH_C01_TransactionRoundTrip_quick()    { c01RoundTrip(4000) }
+func VH_C01_TransactionRoundTrip_quick()    { c01RoundTrip(6000) }
 func VH_C01_TransactionRoundTrip_thorough() { c01RoundTrip(65535) }
 
 // Round trip at the edges of the 16-bit field length (concrete lengths, arbitrary content).
